@@ -28,7 +28,7 @@ fn main() {
         "modes" => for s in &scen_build::modes(seed, thorough) { sink.build(s); },
         "total" => { for s in &scen_build::total(seed, thorough) { sink.build(s); } scen_build::giant(&mut sink, thorough); },
         "discovered" => for s in &scen_build::discovered(&arg(&args, "--corpus", "")) { sink.build(s); },
-        #[cfg(feature = "render")]
+        #[cfg(feature = "svg")]
         "svgdiscovered" => fqv::scen_render::svg_discovered(&mut sink, seed, &arg(&args, "--corpus", "")),
         "giant" => scen_build::giant(&mut sink, thorough),
         "corrupt" => for (s, errs) in &scen_build::corrupt_specs(seed, thorough) {
@@ -40,30 +40,30 @@ fn main() {
             sink.emit(&ev);
         },
         "text" => fqv::scen_text::text(&mut sink, seed, thorough),
-        #[cfg(feature = "render")]
+        #[cfg(feature = "svg")]
         "svg" => fqv::scen_render::svg(&mut sink, seed, thorough),
-        #[cfg(feature = "render")]
+        #[cfg(feature = "svg")]
         "frames" => fqv::scen_render::frames(&mut sink, seed, thorough),
         "histories" => fqv::scen_hist::histories(&mut sink, &arg(&args, "--replay-in", ""), arg(&args, "--grp0", "0").parse().unwrap_or(0), arg(&args, "--mapping", "") == "rejected"),
         "aftermath" => fqv::scen_hist::aftermath(&mut sink, seed, thorough, 2_000_000),
         "walk" => fqv::scen_hist::walk(&mut sink, seed, thorough, 3_000_000),
-        #[cfg(feature = "render")]
+        #[cfg(feature = "image")]
         "soak" => fqv::scen_hist::soak(&mut sink, seed, thorough),
-        #[cfg(feature = "render")]
+        #[cfg(feature = "image")]
         "threads" => fqv::scen_hist::threads(&mut sink, seed, thorough, 1_000_000),
-        #[cfg(feature = "render")]
+        #[cfg(feature = "image")]
         "fileio" => fqv::scen_file::fileio(&mut sink, seed, thorough, &arg(&args, "--replay-in", "")),
-        #[cfg(feature = "render")]
+        #[cfg(feature = "image")]
         "fileconc" => fqv::scen_file::fileconc(&mut sink, seed, thorough, &arg(&args, "--replay-in", "")),
-        #[cfg(feature = "render")]
+        #[cfg(feature = "svg")]
         "sessions" => fqv::scen_render::sessions(&mut sink, seed, thorough, &arg(&args, "--alphabet", ""), &arg(&args, "--replay-in", "")),
-        #[cfg(feature = "render")]
+        #[cfg(feature = "svg")]
         "callbacks" => fqv::scen_render::callbacks(&mut sink, seed, thorough),
-        #[cfg(feature = "render")]
+        #[cfg(feature = "image")]
         "conv" => fqv::scen_render::conv(&mut sink, seed, thorough),
-        #[cfg(feature = "render")]
+        #[cfg(feature = "image")]
         "rasterframes" => fqv::scen_render::rasterframes(&mut sink, seed, thorough),
-        #[cfg(feature = "render")]
+        #[cfg(feature = "image")]
         "raster" => fqv::scen_render::raster(&mut sink, seed, thorough),
         #[cfg(any(feature = "hooks", feature = "wasmonly"))]
         "wasm" => fqv::scen_wasm::wasm(&mut sink, seed, thorough, &arg(&args, "--alphabet", ""), &arg(&args, "--replay-in", "")),
